@@ -94,6 +94,12 @@ pub fn verif_root() -> String {
     std::env::var("VERIF_ROOT").unwrap_or_else(|_| "/verif".to_string())
 }
 
+/// where evidence and newly found replay files go (VERIF_OUT; defaults to the verif root).
+/// Used when checks are run against a deliberately broken tree (sensitivity runs).
+pub fn out_root() -> String {
+    std::env::var("VERIF_OUT").unwrap_or_else(|_| verif_root())
+}
+
 pub fn load_known() -> Vec<Known> {
     let path = format!("{}/known_findings.json", verif_root());
     let text = match std::fs::read_to_string(&path) {
@@ -224,7 +230,7 @@ pub fn write_replay<C: Serialize>(id: &str, case: &C, v: &Violation, debug: &str
 }
 
 pub fn write_replay_json(id: &str, case_json: &Value, v: &Violation, debug: &str) -> String {
-    let dir = format!("{}/replays/{}/new", verif_root(), id);
+    let dir = format!("{}/replays/{}/new", out_root(), id);
     let _ = std::fs::create_dir_all(&dir);
     let h = crate::core::fnv(case_json.to_string().as_bytes());
     let path = format!("{}/{:016x}.json", dir, h);
@@ -473,7 +479,7 @@ pub fn run_property<P: Property>(p: &P, opts: &RunOpts) -> RunSummary {
 }
 
 pub fn write_evidence(id: &str, ev: &Value) {
-    let dir = format!("{}/evidence", verif_root());
+    let dir = format!("{}/evidence", out_root());
     let _ = std::fs::create_dir_all(&dir);
     let _ = std::fs::write(format!("{}/{}.json", dir, id), serde_json::to_string_pretty(ev).unwrap());
 }
